@@ -1,69 +1,223 @@
+// C01: committed transactions form a snapshot-isolated, externally consistent
+// history. Stateless exploration of all interleavings (<= P preemptions) of
+// the seam events of 2-3 logical clients running small transaction programs
+// over colliding keys, on the real client code over mocktikv / unistore.
 package main
 
 import (
 	"fmt"
 	"os"
+	"strings"
 	"time"
 
+	"veriftxn/common"
+
+	"github.com/tikv/client-go/v2/verifrt/ev"
 	"github.com/tikv/client-go/v2/verifrt/sched"
 	"github.com/tikv/client-go/v2/verifrt/txnh"
 )
 
-type sc struct {
-	progs [][]txnh.Program
-	keys  []string
-	w     *txnh.World
-	h     *txnh.History
+func op(kind, key string) txnh.Op { return txnh.Op{Kind: kind, Key: key} }
+
+// alphabet of program steps; compound steps keep pessimistic programs well formed
+// (a pessimistic transaction locks a key before it writes it).
+type step struct {
+	name string
+	ops  []txnh.Op
+	rd   []string // keys read
+	wr   []string // keys written
 }
 
-func (s *sc) Name() string { return "probe" }
-func (s *sc) Setup() {
-	b := txnh.NewMockBackend(1)
-	s.w = txnh.NewWorld(b, len(s.progs))
-	s.h = &txnh.History{}
-	for i, ps := range s.progs {
-		c := s.w.Clients[i]
-		recs := txnh.NewRecs(s.h, i, ps)
-		ps := ps
-		sched.Go(fmt.Sprint("client", i), func() { c.RunPrograms(s.h, ps, recs) })
+func optSteps() []step {
+	return []step{
+		{"get(a)", []txnh.Op{op("get", "a")}, []string{"a"}, nil},
+		{"get(b)", []txnh.Op{op("get", "b")}, []string{"b"}, nil},
+		{"bget(a,b)", []txnh.Op{{Kind: "bget", Keys: []string{"a", "b"}}}, []string{"a", "b"}, nil},
+		{"iter", []txnh.Op{{Kind: "iter"}}, []string{"a", "b"}, nil},
+		{"riter[,c)", []txnh.Op{{Kind: "riter", Hi: "c"}}, []string{"a", "b"}, nil},
+		{"riter[,+inf)", []txnh.Op{{Kind: "riter"}}, []string{"a", "b"}, nil},
+		{"set(a)", []txnh.Op{op("set", "a")}, nil, []string{"a"}},
+		{"set(b)", []txnh.Op{op("set", "b")}, nil, []string{"b"}},
+		{"insert(a)", []txnh.Op{op("insert", "a")}, nil, []string{"a"}},
+		{"delete(a)", []txnh.Op{op("delete", "a")}, nil, []string{"a"}},
+		{"insert(b);delete(b)", []txnh.Op{op("insert", "b"), op("delete", "b")}, nil, []string{"b"}},
 	}
 }
-func (s *sc) Menu(e *sched.Event) []sched.Dev { return nil }
-func (s *sc) Extra() []sched.Choice          { return nil }
-func (s *sc) StateKey() string               { return "" }
-func (s *sc) Check(x *sched.Exec) []sched.Violation {
-	t := txnh.ReadTruth(s.w.B, s.keys)
-	return txnh.AuditSI(s.h, t)
+
+func pessSteps() []step {
+	return []step{
+		{"get(a)", []txnh.Op{op("get", "a")}, []string{"a"}, nil},
+		{"bget(a,b)", []txnh.Op{{Kind: "bget", Keys: []string{"a", "b"}}}, []string{"a", "b"}, nil},
+		{"iter", []txnh.Op{{Kind: "iter"}}, []string{"a", "b"}, nil},
+		{"lockrv(a)", []txnh.Op{op("lockrv", "a")}, []string{"a"}, []string{"a"}},
+		{"lock(a);set(a)", []txnh.Op{op("lock", "a"), op("set", "a")}, nil, []string{"a"}},
+		{"lockrv(b);set(b)", []txnh.Op{op("lockrv", "b"), op("set", "b")}, []string{"b"}, []string{"b"}},
+		{"lock(a);delete(a)", []txnh.Op{op("lock", "a"), op("delete", "a")}, nil, []string{"a"}},
+		{"insert(a);lock(a)", []txnh.Op{op("insert", "a"), op("lock", "a")}, nil, []string{"a"}},
+		{"lock(a,b);set(a);set(b)", []txnh.Op{{Kind: "lock", Keys: []string{"a", "b"}}, op("set", "a"), op("set", "b")}, nil, []string{"a", "b"}},
+	}
 }
-func (s *sc) Teardown() { s.w.Close() }
+
+func stepsOf(p prog) int { return p.nsteps }
+
+type prog struct {
+	nsteps int
+	name   string
+	ops    []txnh.Op
+	rd, wr map[string]bool
+}
+
+func programs(steps []step, depth int) []prog {
+	var out []prog
+	var rec func(cur []int)
+	rec = func(cur []int) {
+		if len(cur) > 0 {
+			p := prog{rd: map[string]bool{}, wr: map[string]bool{}}
+			var names []string
+			for _, i := range cur {
+				s := steps[i]
+				names = append(names, s.name)
+				p.ops = append(p.ops, s.ops...)
+				for _, k := range s.rd {
+					p.rd[k] = true
+				}
+				for _, k := range s.wr {
+					p.wr[k] = true
+				}
+			}
+			p.nsteps = len(cur)
+			p.ops = append(p.ops, txnh.Op{Kind: "commit"})
+			p.name = strings.Join(names, ";")
+			out = append(out, p)
+		}
+		if len(cur) == depth {
+			return
+		}
+		for i := range steps {
+			rec(append(cur, i))
+		}
+	}
+	rec(nil)
+	return out
+}
+
+// collide: some key written by one program is read or written by the other.
+func collide(a, b prog) bool {
+	for k := range a.wr {
+		if b.rd[k] || b.wr[k] {
+			return true
+		}
+	}
+	for k := range b.wr {
+		if a.rd[k] {
+			return true
+		}
+	}
+	return false
+}
+
+type layout struct {
+	name   string
+	splits []string
+}
 
 func main() {
 	txnh.Init()
-	m := txnh.Mode{}
-	p := func(ops ...txnh.Op) txnh.Program { return txnh.Program{Mode: m, Ops: ops} }
-	s := &sc{keys: []string{"a", "b"}, progs: [][]txnh.Program{
-		{p(txnh.Op{Kind: "get", Key: "a"}, txnh.Op{Kind: "set", Key: "a"}, txnh.Op{Kind: "commit"})},
-		{p(txnh.Op{Kind: "get", Key: "a"}, txnh.Op{Kind: "set", Key: "a"}, txnh.Op{Kind: "commit"})},
-	}}
-	x := &sched.Explorer{Sc: s, B: sched.Bounds{P: 2, F: 0, Horizon: 300}}
-	x.Outcome = func(e *sched.Exec) string {
-		o := ""
-		for _, t := range s.h.Txns {
-			o += t.Outcome + ":" + t.CommitErr + " "
+	run := ev.Start("C01", "model_checking")
+	keys := []string{"a", "b"}
+	depth, depthB, P := 2, 1, 2
+	budget := 170 * time.Second
+	if run.Thorough() {
+		depth, depthB, P = 2, 2, 2
+		budget = 35 * time.Minute
+	}
+	if s := os.Getenv("VERIF_BUDGET_S"); s != "" {
+		var n int
+		fmt.Sscan(s, &n)
+		budget = time.Duration(n) * time.Second
+	}
+	layouts := []layout{{"1region", nil}, {"split@b", []string{"b"}}}
+	type modeSet struct {
+		mode  txnh.Mode
+		steps []step
+	}
+	var jobs []sched.Job
+	specs := map[string]*txnh.TxnScenario{}
+	addJobs := func(bk common.BackendSpec, ms modeSet, depthA, depthB int, seed bool) {
+		ps := programs(ms.steps, depthA)
+		for _, lo := range layouts {
+			for i := range ps {
+				for j := range ps {
+					// client B's program has at most depthB steps; when both fit in depthB the pair is symmetric: keep i<=j
+					if stepsOf(ps[j]) > depthB || (stepsOf(ps[i]) <= depthB && j < i) {
+						continue
+					}
+					if !collide(ps[i], ps[j]) {
+						continue
+					}
+					pa, pb := ps[i], ps[j]
+					lo := lo
+					name := fmt.Sprintf("%s/%s/%s/%s || %s", bk.Name, lo.name, ms.mode, pa.name, pb.name)
+					mk := func() *txnh.TxnScenario {
+						sc := &txnh.TxnScenario{
+							ID:         name,
+							NewBackend: func() txnh.Backend { return bk.New(lo.splits) },
+							Keys:       keys,
+							Progs: [][]txnh.Program{
+								{{Mode: ms.mode, Ops: pa.ops}},
+								{{Mode: ms.mode, Ops: pb.ops}},
+							},
+						}
+						if seed {
+							// a committed base version of key a, so that reads / deletes / inserts meet data
+							sc.SetupFn = func(s *txnh.TxnScenario) { common.SeedKey(s, "a", "base") }
+						}
+						sc.CheckFn = func(s *txnh.TxnScenario, x *sched.Exec) []sched.Violation {
+							t := txnh.ReadTruth(s.W.B, s.Keys)
+							t.Splits, t.Log = lo.splits, s.W.Log()
+							return txnh.AuditSI(s.H, t)
+						}
+						return sc
+					}
+					specs[name] = mk()
+					jobs = append(jobs, sched.Job{Name: name, Run: func(dl time.Time) sched.Report {
+						sc := mk()
+						x := &sched.Explorer{Sc: sc, B: sched.Bounds{P: P, F: 0, Horizon: 400, EarlyTimers: true, Deadline: dl}}
+						x.Outcome = func(*sched.Exec) string { return sc.OutcomeString() }
+						return x.Explore(false)
+					}})
+				}
+			}
 		}
-		return o
 	}
-	t0 := time.Now()
-	r := x.Explore(false)
-	fmt.Printf("exec=%d trans=%d maxdepth=%d diverged=%d deadlock=%d horizon=%d noq=%d in %v spins=%d audits-mismatch=%d\n", r.Executions, r.Transitions, r.MaxDepth, r.Diverged, r.Deadlocks, r.Horizons, r.NoQuiesce, time.Since(t0), sched.QuiesceSpins, sched.AuditMismatch)
-	for k, v := range r.Outcomes {
-		fmt.Println("  outcome", k, v)
+	for _, bk := range common.Backends() {
+		for _, m := range bk.Modes {
+			ms := modeSet{mode: m, steps: optSteps()}
+			if m.Pessimistic {
+				ms.steps = pessSteps()
+			}
+			addJobs(bk, ms, depth, depthB, true)
+		}
 	}
-	for _, v := range r.Violations {
-		fmt.Println("VIOL", v.Key, v.Count, v.What, v.Trace)
+	if common.HandleReplay(run, jobs, func(name string) sched.Scenario {
+		if s, ok := specs[name]; ok {
+			return s
+		}
+		return nil
+	}, sched.Bounds{P: 99, F: 99, Horizon: 400, EarlyTimers: true}) {
+		return
 	}
-	for _, tr := range r.SampleTraces {
-		fmt.Println("trace:", tr)
-	}
-	os.Exit(0)
+	res := sched.RunSharded(jobs, budget)
+	common.Finish(run, jobs, res, common.FinishOpts{
+		Bounds: map[string]any{"clients": 2, "txns_per_client": 1, "program_depth_steps_client0": depth, "program_depth_steps_client1": depthB, "preemptions": P, "faults": 0, "keys": keys, "layouts": []string{"1region", "split@b"}},
+		Rule: "every pair of transaction programs (<= depth steps each from the per-mode alphabet, symmetric duplicates removed, pairs without a write/read or write/write collision dropped) x layouts x commit modes x backends; " +
+			"for each, every interleaving of the seam events (TSO requests, store RPCs incl. background ones, API call boundaries, virtual back-off timers) with at most P preemptions is executed on the real client code; " +
+			"the SI auditor checks every execution against the MVCC ground truth read from the store. distinct_nontrivial = distinct (scenario, outcome+read-results) classes with at least one conflict-capable pair",
+		Assumptions: []string{
+			"interleavings are enumerated at seam granularity (RPC / TSO / API boundary / virtual timer); goroutines of one client between two seam points are not permuted",
+			"pessimistic programs lock a key before writing it; for such a key the transaction's interval starts at the lock's for-update ts",
+			"a timestamp is assigned when the TSO request is released by the explorer (one linearisation point per request)",
+			"mocktikv implements only the 2PC path; async commit / 1PC are explored on unistore (trusted as TiKV semantics) when that backend is compiled in",
+		},
+	})
 }
